@@ -4,6 +4,7 @@ import Fabio.Model.Route
 import Fabio.Model.Parse
 import Fabio.Model.C02
 import Fabio.Model.C02Loop
+import Fabio.Model.C02Buf
 /-!
 Driver handlers for C02.
 
@@ -24,6 +25,11 @@ Driver handlers for C02.
   last document that decoded into a fresh variable and built.
 * `c02.nopanic` — `spec`: outcome ≠ panic and no panic while the built table was rendered and looked up;
   `agree`: outcome class (and, for ASCII texts, the host/path/target skeleton) equals the total model's.
+* `c02.buffer` (round 4) — what the real `route.NewTable` leaves in the `bytes.Buffer` it was handed. `agree`: the
+  number of unread bytes equals `C02Buf.leftAfterParse` (the model of `bufio.Scanner.Scan` on a `bytes.Buffer`, stopped
+  at the first line the line parser rejects). `spec`, on the implementation's own output: no panic, never more left than
+  was there, an ACCEPTED text was read to its end, and the loop's protocol on the same buffer (Reset, write, build) gives
+  the table of the new text alone.
 * `c02.swap` — `spec`: no mixed answer, no table out of publication order, none outside the load window, no
   unpublished or nil table.
 -/
@@ -81,7 +87,8 @@ def ampText (s : Str) (a : Json) : Str :=
       join ['\n'] (ls.take at_ ++ [l] ++ ls.drop at_)
     else s
   let pad := min (natOf a "pad") 4096
-  s1 ++ (List.replicate pad ('\n' :: padLine)).flatten
+  let pre := min (natOf a "pre") 4096
+  (List.replicate pre (padLine ++ ['\n'])).flatten ++ s1 ++ (List.replicate pad ('\n' :: padLine)).flatten
 
 def eventText (j : Json) : Option Str :=
   if has j "hex" then none else
@@ -279,6 +286,34 @@ def nopanicH : Handler := fun inp impl => do
   let nontrivial := outcome == "table" || (outcome == "error" && what != "decode" && !what.startsWith "syn")
   return ({ model := m, agree, spec, nontrivial, tag } : Verdict).toJson
 
+/-! ### c02.buffer -/
+
+def bufferH : Handler := fun inp impl => do
+  let outcome := (impl.getObjValAs? String "outcome").toOption.getD "?"
+  let left := natOf impl "left"
+  let len := natOf impl "len"
+  let reuse := (impl.getObjValAs? String "reuse").toOption.getD "?"
+  let ampJ := (inp.getObjVal? "amp").toOption.getD Json.null
+  let inModel := !has inp "hex" && has impl "oracle"
+  let spec := (outcome == "table" || outcome == "error") && left ≤ len && (outcome != "table" || left == 0) && reuse == "same"
+  let what := (objOr impl "what" |>.getObjValAs? String "kind").toOption.getD ""
+  let (m, agree) :=
+    if inModel then
+      let text := if ampJ.isNull then getStrD inp "text" else ampText (getStrD inp "text") ampJ
+      let ml := Fabio.Model.C02Buf.leftAfterParse (pfOf (objOr impl "oracle")) text
+      (Json.mkObj [("left", ml), ("len", byteLen text)], ml == left && byteLen text == len)
+    else (Json.null, true)
+  let size := if len ≤ 4096 then "1chunk" else if len ≤ 65536 then "chunks" else "big"
+  let tag :=
+    if outcome == "panic" then "build-panic"
+    else if outcome != "table" && outcome != "error" then "harness-error"
+    else if left > len then "left-exceeds-length"
+    else if outcome == "table" && left > 0 then "accepted-text-not-read-to-end"
+    else if reuse != "same" then "reused-buffer-" ++ reuse
+    else (if left > 0 then "tail-left/" else "drained/") ++ (if outcome == "table" then "table" else "err:" ++ what) ++ "/" ++ size ++
+      (if inModel then "" else "/bytes-outside-model")
+  return ({ model := m, agree, spec, nontrivial := left > 0, tag } : Verdict).toJson
+
 /-! ### c02.swap -/
 
 def swapH : Handler := fun _inp impl => do
@@ -294,5 +329,6 @@ def swapH : Handler := fun _inp impl => do
   return ({ model := m, agree := spec, spec, nontrivial := natOf by_ "A" > 0 && natOf by_ "B" > 0, tag } : Verdict).toJson
 
 def streams : List (String × Handler) :=
-  [("c02.history", historyH), ("c02.custom", customH), ("c02.nopanic", nopanicH), ("c02.swap", swapH)]
+  [("c02.history", historyH), ("c02.custom", customH), ("c02.nopanic", nopanicH), ("c02.buffer", bufferH),
+   ("c02.swap", swapH)]
 end Fabio.Driver.C02
